@@ -225,6 +225,69 @@ func genCase(t *rapid.T, tierB bool) Case {
 			}
 		}
 	}
+	// templates on top of the random script (random shape, keyed tables, two non-key columns)
+	colPos := func(tb gen.Table, name string) int {
+		for i, cn := range tb.Cols {
+			if cn == name {
+				return i
+			}
+		}
+		return -1
+	}
+	if !keyless && c.Shape == "random" && len(nonKey) >= 2 {
+		switch rapid.IntRange(0, 5).Draw(t, "template") {
+		case 0:
+			// one branch exchanges the values of two columns in a few rows, another branch exchanges
+			// the positions of those two columns: the edited rows of the first and the untouched rows
+			// of the second then consist of the same cells in the same order
+			pn, qn := u.Cols[nonKey[0]], u.Cols[nonKey[len(nonKey)-1]]
+			ea, eb := rapid.IntRange(0, n-1).Draw(t, "swapEditor"), rapid.IntRange(0, n-1).Draw(t, "swapMover")
+			if ea != eb && colPos(branches[ea], pn) >= 0 && colPos(branches[ea], qn) >= 0 && colPos(branches[eb], pn) >= 0 && colPos(branches[eb], qn) >= 0 {
+				p, q := colPos(branches[ea], pn), colPos(branches[ea], qn)
+				done := 0
+				for i := range branches[ea].Rows {
+					r := branches[ea].Rows[i]
+					if string(r[p]) != string(r[q]) && done < 5 {
+						r[p], r[q] = r[q], r[p]
+						done++
+					}
+				}
+				perm := make([]int, len(branches[eb].Cols))
+				for i := range perm {
+					perm[i] = i
+				}
+				mp, mq := colPos(branches[eb], pn), colPos(branches[eb], qn)
+				perm[mp], perm[mq] = mq, mp
+				branches[eb] = permuteCols(branches[eb], perm, c.PKNames)
+			}
+		case 1:
+			if tierB {
+				// the last-listed branch reverses its columns and adds two new ones after two
+				// different existing columns
+				b := n - 1
+				tb := branches[b]
+				if len(tb.Cols) >= 3 && colPos(tb, "ncA") < 0 {
+					perm := make([]int, len(tb.Cols))
+					for i := range perm {
+						perm[i] = len(tb.Cols) - 1 - i
+					}
+					tb = permuteCols(tb, perm, c.PKNames)
+					ins := func(tb gen.Table, after int, name string) gen.Table {
+						out := gen.Table{Cols: append(append(append([]string{}, tb.Cols[:after+1]...), name), tb.Cols[after+1:]...), Rows: make([][]gen.Cell, len(tb.Rows))}
+						for i, r := range tb.Rows {
+							out.Rows[i] = append(append(append([]gen.Cell{}, r[:after+1]...), gen.Cell(fmt.Sprintf("n%d", i%2))), r[after+1:]...)
+						}
+						return out
+					}
+					i1 := rapid.IntRange(0, len(tb.Cols)-3).Draw(t, "insAfter1")
+					tb = ins(tb, i1, "ncA")
+					i2 := rapid.IntRange(i1+2, len(tb.Cols)-1).Draw(t, "insAfter2")
+					tb = ins(tb, i2, "ncB")
+					branches[b] = tb
+				}
+			}
+		}
+	}
 	for b := range branches {
 		branches[b].PK = pkIdx(branches[b].Cols, c.PKNames)
 	}
